@@ -3,7 +3,7 @@ import re
 from paths import explore
 from sym import fmt, walk
 from callgraph import CallGraph
-from rules.common import adt_base, Anchors, path_calls, ret_kind, root_param, arg_locs
+from rules.common import calls_in_loops, adt_base, Anchors, path_calls, ret_kind, root_param, arg_locs
 import stdmodel as SM
 from rules.streams import norm
 
@@ -235,6 +235,7 @@ def r11_3(ctx, A):
             return None
         ig = first(lambda c: c[2] == getter.path)
         problems = []
+        hidden = []
         if ig is None:
             problems.append('the counting writer is never unwrapped')
         else:
@@ -245,7 +246,9 @@ def r11_3(ctx, A):
                 l is not None and l[:2] == (1, A.b_wtr) for l in arg_locs(fin, c[4]))]
             if len(compile_calls) < 2:
                 problems.append('fewer than two compile steps (pending nodes, root) before the footer: %s' % [c[2] for c in compile_calls])
-            if len(footer) < 2:
+            if len(footer) < 2 and calls_in_loops(fin, lambda c: c in emits and c not in {m.path for m in A.builder_methods()}):
+                hidden.append('footer writes sit inside a loop')
+            elif len(footer) < 2:
                 problems.append('fewer than two footer writes through the counting writer before it is unwrapped (found %d)' % len(footer))
             raw_emit = [i for i, c in enumerate(after) if (c[2] in emits or f_decl(fin, c) == SM.IO_WRITE_ALL)]
             flushes = [i for i, c in enumerate(after) if f_decl(fin, c) == SM.IO_FLUSH]
@@ -262,6 +265,9 @@ def r11_3(ctx, A):
                 base = base[3]
             if not (base is not None and base[0] == 'call' and base[1] == getter.path):
                 problems.append('the writer handed back is not the unwrapped sink: %s' % fmt(base)[:80])
+        if hidden and not problems:
+            ctx.undecided(R, 'finish-path', 'the footer is written from inside a loop (over a list of words): the number of footer writes before the unwrap is not decided', fn=fin)
+            continue
         ctx.check(R, not problems, 'finish-path', '; '.join(problems), fn=fin, detail={'sequence': [n.rsplit('::', 2)[-2] + '::' + n.rsplit('::', 1)[-1] if isinstance(n, str) else str(n) for n in names]})
     if n_ok == 0:
         ctx.undecided(R, 'no-success-path', 'no success path in %s' % fin.path, fn=fin)
